@@ -8,7 +8,10 @@
 //! installed and run freely; a 1 ms sleep on the paused clock runs them to quiescence.
 //!
 //! ops (one per line; the observation goes to impl.txt):
-//!   case v1|v2 <n> <actors>     fresh port, <actors> fresh subscriber actors    -> ok
+//!   case v1|v2 <n> <actors> [<k>]  fresh port, <actors> fresh subscriber actors; the first <k>
+//!                                of them are held in `pre_start` (status Starting: their
+//!                                mailbox accepts messages, nothing is handled yet)  -> ok
+//!   release <actor>              let a held actor finish `pre_start`             -> ok
 //!   pub <m>                      port.send(m)                                    -> ok
 //!   sub <key> <actor> <conv>     port.subscribe(actor, conv tagged with key)    -> v2: ok
 //!                                                              v1: held=<h> fin=<f> rx=<r>
@@ -44,12 +47,18 @@ type Received = Arc<Mutex<Vec<(u64, u64)>>>;
 
 struct Recorder;
 
+/// where the received messages go, and (for an actor that is held in `pre_start`) the gate
+type RecorderArgs = (Received, Option<tokio::sync::oneshot::Receiver<()>>);
+
 impl Actor for Recorder {
     type Msg = (u64, u64);
     type State = Received;
-    type Arguments = Received;
-    async fn pre_start(&self, _: ActorRef<Self::Msg>, a: Received) -> Result<Received, ActorProcessingErr> {
-        Ok(a)
+    type Arguments = RecorderArgs;
+    async fn pre_start(&self, _: ActorRef<Self::Msg>, a: RecorderArgs) -> Result<Received, ActorProcessingErr> {
+        if let Some(gate) = a.1 {
+            let _ = gate.await; // still `Starting`: an actor subscribing itself before it runs
+        }
+        Ok(a.0)
     }
     async fn handle(&self, _: ActorRef<Self::Msg>, m: Self::Msg, st: &mut Received) -> Result<(), ActorProcessingErr> {
         st.lock().unwrap().push(m);
@@ -82,6 +91,11 @@ struct World {
     port: Option<OutputPort<u64>>,
     actors: Vec<(ActorRef<(u64, u64)>, Received)>,
     calls: Arc<Mutex<Vec<(u64, u64)>>>,
+    /// gates of the actors still held in `pre_start`
+    gates: Vec<Option<tokio::sync::oneshot::Sender<()>>>,
+    /// controller tasks that are subscriber actors' message loops (an actor released from
+    /// `pre_start` spawns its loop while the controller is installed): always run to quiescence
+    actor_tasks: Vec<usize>,
     /// subscription key -> controller task id (v1)
     tasks: std::collections::HashMap<u64, usize>,
     /// number of `pub` ops so far, and its value at the last grant of each task (statistics)
@@ -90,18 +104,48 @@ struct World {
 }
 
 impl World {
-    async fn new(nactors: usize) -> World {
+    async fn new(nactors: usize, nheld: usize) -> World {
         ractor::verif::uninstall();
         let mut actors = Vec::new();
-        for _ in 0..nactors {
+        let mut gates = Vec::new();
+        for i in 0..nactors {
             let rec: Received = Arc::new(Mutex::new(Vec::new()));
-            let (a, _) = Actor::spawn(None, Recorder, rec.clone()).await.expect("spawn recorder");
-            actors.push((a, rec));
+            if i < nheld {
+                // `spawn_instant`: the reference exists at once, `pre_start` waits for the gate
+                let (tx, rx) = tokio::sync::oneshot::channel();
+                let (a, _) = ractor::ActorRuntime::<Recorder>::spawn_instant(None, Recorder, (rec.clone(), Some(rx))).expect("spawn held recorder");
+                actors.push((a, rec));
+                gates.push(Some(tx));
+            } else {
+                let (a, _) = Actor::spawn(None, Recorder, (rec.clone(), None)).await.expect("spawn recorder");
+                actors.push((a, rec));
+                gates.push(None);
+            }
         }
+        settle().await;
         let ctl = ractor::verif::install();
         // v2: `default()` spawns the port task (controller task 0)
         let port = OutputPort::<u64>::default();
-        World { ctl, port: Some(port), actors, calls: Arc::new(Mutex::new(Vec::new())), tasks: Default::default(), npub: 0, last_grant: Default::default() }
+        World { ctl, port: Some(port), actors, gates, actor_tasks: vec![], calls: Arc::new(Mutex::new(Vec::new())), tasks: Default::default(), npub: 0, last_grant: Default::default() }
+    }
+
+    /// subscriber actors are not under test: whenever one of their (gated) loops can run, it runs
+    async fn pump_actors(&self) {
+        for _ in 0..200 {
+            let mut any = false;
+            for id in &self.actor_tasks {
+                if let Some(t) = self.ctl.task(*id) {
+                    if t.runnable() {
+                        t.grant();
+                        any = true;
+                    }
+                }
+            }
+            if !any {
+                break;
+            }
+            settle().await;
+        }
     }
 
     #[cfg(not(feature = "outport-v2"))]
@@ -146,6 +190,13 @@ impl World {
     }
 
     async fn exec(&mut self, op: &str, st: &mut Stats) -> String {
+        self.pump_actors().await;
+        let r = self.exec_op(op, st).await;
+        self.pump_actors().await;
+        r
+    }
+
+    async fn exec_op(&mut self, op: &str, st: &mut Stats) -> String {
         let w: Vec<&str> = op.split_whitespace().collect();
         match w.as_slice() {
             ["pub", m] => {
@@ -177,11 +228,27 @@ impl World {
                     "ok".to_string()
                 }
             }
+            ["release", actor] => {
+                st.bump("release");
+                let a: usize = actor.parse().unwrap();
+                let before = self.ctl.len();
+                if let Some(Some(g)) = self.gates.get_mut(a).map(|g| g.take()) {
+                    let _ = g.send(());
+                }
+                settle().await;
+                // `pre_start` returned: the start task has spawned the actor's loop, gated
+                for id in before..self.ctl.len() {
+                    self.actor_tasks.push(id);
+                }
+                self.pump_actors().await;
+                "ok".into()
+            }
             ["stop", actor] => {
                 st.bump("stop");
                 let a: usize = actor.parse().unwrap();
                 self.actors[a].0.stop(None);
                 settle().await;
+                self.pump_actors().await;
                 let s = self.actors[a].0.get_status();
                 if s == ractor::ActorStatus::Stopped { "ok".into() } else { format!("{s:?}") }
             }
@@ -205,6 +272,7 @@ impl World {
             ["seq", key] => {
                 st.bump("seq");
                 settle().await;
+                self.pump_actors().await;
                 let key: u64 = key.parse().unwrap();
                 let mut out = Vec::new();
                 for (_, rec) in &self.actors {
@@ -222,6 +290,11 @@ impl World {
     }
 
     async fn finish(mut self) {
+        for g in self.gates.iter_mut() {
+            if let Some(g) = g.take() {
+                let _ = g.send(());
+            }
+        }
         // let every gated task run to its end so nothing stays parked forever
         self.port = None;
         for t in self.ctl.tasks() {
@@ -249,8 +322,12 @@ async fn run_case(ops: &[String], log: &mut Log, st: &mut Stats) {
         return; // a case recorded for the other build
     }
     let nactors: usize = w.get(3).and_then(|x| x.parse().ok()).unwrap_or(4);
+    let nheld: usize = w.get(4).and_then(|x| x.parse().ok()).unwrap_or(0);
     st.bump("cases");
-    let mut world = World::new(nactors).await;
+    if nheld > 0 {
+        st.bump("cases_with_starting_subscriber");
+    }
+    let mut world = World::new(nactors, nheld).await;
     log.rec(&ops[0], "ok");
     for op in &ops[1..] {
         let obs = world.exec(op, st).await;
@@ -261,7 +338,14 @@ async fn run_case(ops: &[String], log: &mut Log, st: &mut Stats) {
 
 fn gen_case(rng: &mut Rng, n: u64) -> Vec<String> {
     let nactors = rng.range(1, 4);
-    let mut ops = vec![format!("case {} {n} {nactors}", if V2 { "v2" } else { "v1" })];
+    // in a third of the cases some subscribers are still in `pre_start` (status Starting)
+    let nheld = if rng.chance(1, 3) { rng.range(1, nactors) } else { 0 };
+    let mut held: Vec<u64> = (0..nheld).collect();
+    let mut ops = vec![if nheld > 0 {
+        format!("case {} {n} {nactors} {nheld}", if V2 { "v2" } else { "v1" })
+    } else {
+        format!("case {} {n} {nactors}", if V2 { "v2" } else { "v1" })
+    }];
     let mut next_msg = 1u64;
     let mut keys: Vec<u64> = Vec::new();
     let steps = rng.range(4, 40);
@@ -294,7 +378,14 @@ fn gen_case(rng: &mut Rng, n: u64) -> Vec<String> {
             ops.push(format!("sub {key} {} {kind}", rng.below(nactors)));
             keys.push(key);
         } else if k < 50 + stop_w {
-            ops.push(format!("stop {}", rng.below(nactors)));
+            // an actor that is still starting cannot be stopped gracefully: only released ones
+            let a = rng.below(nactors);
+            if !held.contains(&a) {
+                ops.push(format!("stop {a}"));
+            } else if rng.chance(1, 2) {
+                held.retain(|x| *x != a);
+                ops.push(format!("release {a}"));
+            }
         } else if k < 58 + grant_w {
             if V2 {
                 ops.push("grant port".into());
@@ -312,9 +403,17 @@ fn gen_case(rng: &mut Rng, n: u64) -> Vec<String> {
     for k in &keys {
         ops.push(format!("seq {k}"));
     }
+    if rng.chance(1, 2) {
+        for a in held.drain(..) {
+            ops.push(format!("release {a}"));
+        }
+    }
     grant_all(&mut ops, &keys, rng);
     if rng.chance(1, 2) {
         grant_all(&mut ops, &keys, rng);
+    }
+    for a in held.drain(..) {
+        ops.push(format!("release {a}"));
     }
     for k in &keys {
         ops.push(format!("seq {k}"));
